@@ -19,7 +19,25 @@ position (hull of random integer points): the mesh is the hull triangulation, th
  (c) dict / list of volumes (points and neurons), shuffled order, duplicate names vs `c18.dict / c18.list / c18.dictpts`;
      `navis.intersection_matrix(..., attr='n_nodes')` vs `c18.imat`;
  (d) `TreeNeuron.snap / MeshNeuron.snap / Dotprops.snap` (nodes, vertices, points, connectors) on integer coordinates with
-     unique nearest neighbours vs `c18.snap` (id and exact squared distance).
+     unique nearest neighbours vs `c18.snap` (id and exact squared distance); with exact ties the Lean checker alone decides;
+ (e) **volume histories**: ONE `navis.Volume` object is queried (points / DataFrame / TreeNeuron IN+OUT / NeuronList /
+     `prune_by_volume` (also in place) / dict / list / `intersection_matrix`; every back-end and ray count), changed IN PLACE
+     by every available mutator (`apply_translation`, `apply_scale`, `apply_transform`, `vol.vertices = …`, `vol.verts = …`,
+     `vol.vertices *= k` / `+= t` / `np.multiply(…, out=vol.vertices)` / slice assignment, `resize(inplace=True)`, replacement
+     of the whole mesh) and queried again, with `copy()` / `copy.copy` / `deepcopy` / pickle round trips / `vol * k` / `vol ± t` /
+     `resize(inplace=False)` in between (derived objects are queried and changed too); after EVERY step the answer is judged
+     against the exact membership in the object's *current* solid (`c18.hist`, which runs `VolCache.step` on the cache
+     `Spec` generated from the current source).  A recording subclass of `ncollpyde.Volume` (and, in every fourth history,
+     a brute-force stand-in for the not-installed `pyoctree.PyOctree`, so that `in_volume_pyoc` and its `volume.pyoctree`
+     cache attribute execute) reports which geometry each structure was built from: "answered from the current mesh" is
+     compared with the state machine and required by an oracle;
+ (f) VoxelNeuron (voxel table and grid; units 1/3/anisotropic, offsets; in place, NeuronList) vs `c18.vox` / `checkVoxKept`;
+     back-end selection (`c18.backend`) and refusal of `n_rays <= 0`; the `in_volume_pyoc` ray-consensus loop vs `c18.pyoc`
+     (n-ray answer == bounding box AND conjunction of the single-ray answers with the same ray origins); points exactly ON the
+     surface (face / edge / vertex): outside the property's quantifier — recorded, never judged.
+The model functions for skeletons (`c18.tree / prune / nlist / dict / list`) are the `…As` functions evaluated on the *shape*
+of `in_volume` extracted from the current source (Gen/InVolume.lean): they keep predicting navis when the source deviates,
+while the oracles (exact membership decided by Lean) fail.
 Oracles (the property on navis' own output, decided by the Lean checkers proved sound in Props/C18):
  * the mask is the exact membership (`checkMask`);
  * IN / OUT partition the nodes / points / vertices (`checkPartition`), each part carries exactly its own connectors
@@ -612,10 +630,13 @@ def run_tree(ctx, case):
     if not attached:
         ctx.count('tree_dangling_connectors')
     res = {}
+    exact = ctx.ask(f'c18.mem {S} | {pts_str([n[2:5] for n in nodes])}')       # Lean `mem` at every node
     for mode in ('IN', 'OUT'):
-        model = ctx.ask(f'c18.tree {mode} | {S} | {nodes_str(nodes)} | {tconns_str(conns)}')
         calls = case.get('calls') or ['in_volume']
         for call in calls:
+            # the model as the source is shaped now (Gen/InVolume.lean): in_volume / prune_by_volume / NeuronList loop
+            cmd = {'prune_by_volume': 'prune', 'prune_inplace': 'prune', 'neuronlist': 'nlist'}.get(call, 'tree')
+            model = ctx.ask(f'c18.{cmd} {mode} | {S} | {nodes_str(nodes)} | {tconns_str(conns)}')
             t = make_tree(nodes, conns)
             if call == 'in_volume':
                 fn = lambda: navis.in_volume(t, vol, mode=mode, n_rays=case.get('n_rays'))
@@ -640,6 +661,9 @@ def run_tree(ctx, case):
             kc = conn_ids(r)
             ctx.corr(f'{ints(sorted(kept))}|{ints(sorted(kc))}', _sort_tree(model),
                      f'{call}(TreeNeuron, mode={mode}) kept nodes|connectors vs model', case)
+            want = [i for i, b in zip(all_ids, exact) if (b == '1') == (mode == 'IN')]
+            ctx.oracle(sorted(kept) == sorted(want), f'{call}(TreeNeuron, mode={mode}) keeps nodes {sorted(kept)}; the nodes '
+                                                     f'{mode.lower()}side the volume are {sorted(want)}', case)
             ok = not attached or ctx.ask(f'c18.chkconn {tconns_str(conns)} | {ints(kept)} | {ints(kc)}') == '1'
             ctx.oracle(ok, f'{call}(TreeNeuron, mode={mode}): kept connectors {sorted(kc)} are not exactly those attached '
                            f'to the kept nodes {sorted(kept)}', case)
@@ -693,8 +717,16 @@ def run_dots(ctx, case):
         call = case.get('call', 'in_volume')
         if call == 'in_volume':
             r, err = safe(lambda: navis.in_volume(dp, vol, mode=mode))
+        elif call == 'neuronlist':
+            r, err = safe(lambda: navis.in_volume(navis.NeuronList([dp]), vol, mode=mode)[0])
+        elif call == 'inplace':         # (only TreeNeuron has `prune_by_volume`)
+            def fn():
+                navis.in_volume(dp, vol, mode=mode, inplace=True)
+                return dp
+            r, err = safe(fn)
         else:
-            r, err = safe(lambda: dp.prune_by_volume(vol, mode=mode))
+            raise ValueError(call)
+        ctx.count('dots_call', call)
         if err:
             ctx.oracle(False, f'{call}(Dotprops, mode={mode}) raised: {err}', case)
             continue
@@ -780,8 +812,16 @@ def run_mesh(ctx, case):
         call = case.get('call', 'in_volume')
         if call == 'in_volume':
             r, err = safe(lambda: navis.in_volume(m, vol, mode=mode))
+        elif call == 'neuronlist':
+            r, err = safe(lambda: navis.in_volume(navis.NeuronList([m]), vol, mode=mode)[0])
+        elif call == 'inplace':         # (only TreeNeuron has `prune_by_volume`)
+            def fn():
+                navis.in_volume(m, vol, mode=mode, inplace=True)
+                return m
+            r, err = safe(fn)
         else:
-            r, err = safe(lambda: m.prune_by_volume(vol, mode=mode))
+            raise ValueError(call)
+        ctx.count('mesh_call', call)
         if err:
             ctx.oracle(False, f'{call}(MeshNeuron, mode={mode}) raised: {err}', case)
             continue
@@ -896,6 +936,9 @@ def run_multi(ctx, case):
         ctx.oracle(len(t.nodes) == len(nodes), 'in_volume with several volumes modified the input neuron', case)
 
 
+SIG_IMAT_DUP = 'intersection_matrix/list-of-volumes/duplicate-names/volume-silently-dropped'
+
+
 def run_imat(ctx, case):
     named = [(k, g) for k, g in case['vols']]
     try:
@@ -905,27 +948,53 @@ def run_imat(ctx, case):
     trees = case['trees']
     if surface_guard(ctx, [g for _, g in named], [n[2:5] for t in trees for n in t[0]]):
         return
-    how, mode = case['how'], case['mode']
+    how, mode, attr = case['how'], case['mode'], case.get('attr', 'n_nodes')
+    names = [k for k, _ in named]
+    dup = len(set(names)) != len(names)
+    if dup and how == 'dict':
+        return
     nl = navis.NeuronList([make_tree(n, c, nid=i + 1) for i, (n, c) in enumerate(trees)])
+    x = nl[0] if (case.get('single') and len(trees) == 1) else nl
     vols = {k: v for k, v in built} if how == 'dict' else [v for _, v in built]
     kw = {} if mode == 'IN' and case.get('default_mode') else {'mode': mode}
-    df, err = safe(lambda: navis.intersection_matrix(nl, vols, attr='n_nodes', **kw))
+    df, err = safe(lambda: navis.intersection_matrix(x, vols, attr=attr, **kw))
     if err:
         ctx.oracle(False, f'intersection_matrix raised: {err}', case); return
+    if attr is None:
+        df = df.map(lambda n: len(n.nodes))
     ts = ' # '.join(f'{nodes_str(n)}~{tconns_str(c)}' for n, c in trees)
-    model = ctx.ask(f'c18.imat {mode} | {vols_str(named)} | {ts}')
-    impl = sorted(f"{k}:{ints(df.loc[k].values)}" for k in df.index)
-    ctx.corr(impl, sorted(model.split('/')), f'intersection_matrix(attr=n_nodes, mode={mode}, {how}) vs model', case)
-    ctx.oracle(list(df.columns) == [i + 1 for i in range(len(trees))] and sorted(df.index) == sorted(k for k, _ in named),
-               f'intersection_matrix labels: rows {list(df.index)} cols {list(df.columns)}', case)
-    # cell == number of nodes exactly inside / outside that volume alone
-    for k, g in named:
+    if attr in ('n_nodes', None):
+        # the model builds the dict the way the code does (`{v.name: v for v in volumes}`: a later volume of the same name
+        # replaces the earlier one in the earlier one's position)
+        model = ctx.ask(f'c18.imat {mode} | {vols_str(named)} | {ts}')
+        impl = sorted(f"{k}:{ints(df.loc[k].values)}" for k in df.index)
+        ctx.corr(impl, sorted(model.split('/')), f'intersection_matrix(attr={attr}, mode={mode}, {how}) vs model', case)
+    ctx.oracle(list(df.columns) == [i + 1 for i in range(len(trees))],
+               f'intersection_matrix columns {list(df.columns)} are not the neuron ids', case)
+    # every volume is answered under its own name
+    ctx.oracle(sorted(df.index) == sorted(names),
+               f'intersection_matrix rows {list(df.index)}: not one row per volume {names} (a volume was dropped)', case,
+               signature=SIG_IMAT_DUP if (dup and how == 'list') else None)
+    # cell == number of nodes (connectors) exactly inside / outside that volume alone
+    last = {k: g for k, g in named}          # with duplicated names the surviving row is the LAST volume of that name
+    for k in df.index:
+        g = last[k]
         for i, (n, c) in enumerate(trees):
-            m = ctx.ask(f'c18.mem {solid_str(g)} | {pts_str([x[2:5] for x in n])}')
-            want = m.count('1') if mode == 'IN' else m.count('0')
-            ctx.oracle(int(df.loc[k, i + 1]) == want, f'intersection_matrix[{k!r}, neuron {i + 1}] = {df.loc[k, i + 1]} but '
-                                                      f'{want} nodes are {mode.lower()}side that volume', case)
-    ctx.count('imat', f'{how}/{mode}/{len(named)}x{len(trees)}')
+            if attr == 'n_connectors':
+                if c is None:
+                    continue
+                kept = ctx.ask(f'c18.tree {mode} | {solid_str(g)} | {nodes_str(n)} | {tconns_str(c)}').split('|')[1]
+                want = len(is_int_list(kept))
+                got = df.loc[k, i + 1]
+                got = 0 if got is None else int(got)
+            else:
+                m = ctx.ask(f'c18.mem {solid_str(g)} | {pts_str([x_[2:5] for x_ in n])}')
+                want = m.count('1') if mode == 'IN' else m.count('0')
+                got = int(df.loc[k, i + 1])
+            ctx.oracle(got == want, f'intersection_matrix[{k!r}, neuron {i + 1}] = {got} but {want} '
+                                    f'{"connectors sit on nodes" if attr == "n_connectors" else "nodes are"} {mode.lower()}side that volume',
+                       case)
+    ctx.count('imat', f'{how}/{mode}/{len(named)}x{len(trees)}/attr={attr}' + ('/dup-names' if dup else '') + ('/single' if x is not nl else ''))
 
 
 # ---------------------------------------------------------------------------------------------------------------
@@ -990,6 +1059,728 @@ def run_snap(ctx, case):
 def _unique(data, p):
     ds = [_d2(p, q) for q in data]
     return ds.count(min(ds)) == 1
+
+
+# ---------------------------------------------------------------------------------------------------------------
+# (e) volume histories: ONE Volume object queried, changed in place, queried again (+ copies / pickles in between)
+# ---------------------------------------------------------------------------------------------------------------
+SIG_PYOC_STALE = 'in_volume_pyoc/stale-pyoctree-attribute/in-place-change-other-than-resize'
+
+_REC = {'key': None, 'used': [], 'built': 0}
+
+
+class _RecNcollVolume(_isect.ncollpyde.Volume if _isect.ncollpyde is not None else object):
+    """ncollpyde.Volume that remembers which geometry (harness key) it was built from and reports every use."""
+
+    def __init__(self, *a, **k):
+        super().__init__(*a, **k)
+        self._rec_key = _REC['key']
+        _REC['built'] += 1
+        _REC.setdefault('kinds', []).append('ncollpyde')
+        _REC.setdefault('rays', []).append(k.get('n_rays'))
+
+    def contains(self, *a, **k):
+        _REC['used'].append(self._rec_key)
+        return super().contains(*a, **k)
+
+
+class _RecNcollModule:
+    Volume = _RecNcollVolume
+
+    def __getattr__(self, name):
+        return getattr(_isect.ncollpyde, name)
+
+
+class _Hit:
+    __slots__ = ('p', 's', 'triLabel')
+
+    def __init__(self, p, s, t):
+        self.p, self.s, self.triLabel = p, s, t
+
+
+class PyOctree:
+    """Stand-in for `pyoctree.pyoctree.PyOctree` (the package is not installed): brute-force intersection of the *line*
+    through the two ray points with every triangle (pyoctree rays are bidirectional, see navis' own comment).  Exact
+    geometry, no acceleration; remembers the geometry key it was built from."""
+
+    def __init__(self, vertices, faces):
+        self.V = np.array(vertices, dtype=float)
+        self.F = np.array(faces, dtype=np.int64)
+        self._rec_key = _REC['key']
+        _REC['built'] += 1
+        _REC.setdefault('kinds', []).append('pyoctree')
+
+    def rayIntersection(self, ray):
+        _REC['used'].append(self._rec_key)
+        o = np.asarray(ray[0], dtype=float); d = np.asarray(ray[1], dtype=float) - o
+        a, b, c = self.V[self.F[:, 0]], self.V[self.F[:, 1]], self.V[self.F[:, 2]]
+        e1, e2 = b - a, c - a
+        h = np.cross(d, e2)
+        det = (e1 * h).sum(axis=1)
+        ok = np.abs(det) > 1e-12
+        inv = np.where(ok, 1.0 / np.where(ok, det, 1.0), 0.0)
+        sv = o - a
+        u = (sv * h).sum(axis=1) * inv
+        qv = np.cross(sv, e1)
+        v = (qv * d).sum(axis=1) * inv
+        t = (e2 * qv).sum(axis=1) * inv
+        hit = ok & (u >= 0) & (v >= 0) & (u + v <= 1)
+        return [_Hit(o + t[i] * d, float(t[i]), int(i)) for i in np.nonzero(hit)[0]]
+
+
+class _PyocModule:
+    PyOctree = PyOctree
+
+
+class _Patched:
+    """Install the recording ncollpyde proxy (and, if asked, the pyoctree stand-in) for the duration of one history."""
+
+    def __init__(self, shim):
+        self.shim = shim
+
+    def __enter__(self):
+        from navis.intersection import ray as _ray
+        self.ray = _ray
+        self.saved = (_ray.ncollpyde, _ray.pyoctree, _isect.pyoctree)
+        if _ray.ncollpyde is not None:
+            _ray.ncollpyde = _RecNcollModule()
+        if self.shim:
+            _ray.pyoctree = _PyocModule()
+            _isect.pyoctree = _ray.pyoctree
+        return self
+
+    def __exit__(self, *a):
+        self.ray.ncollpyde, self.ray.pyoctree, _isect.pyoctree = self.saved
+
+
+def pose_matrix(pose):
+    s, f, idx, t = pose_parts(pose)
+    M = np.eye(4)
+    M[:3, :3] = 0
+    for a in range(3):
+        M[a, idx[a]] = int(s[idx[a]]) * int(f[idx[a]])
+        M[a, 3] = int(t[a])
+    return M
+
+
+def pose_box_key(pose, boxes):
+    """Python mirror of Lean `Pose.solid`: every box corner through the pose, corners re-sorted per axis."""
+    out = []
+    for sg, lo, hi in boxes:
+        a = pose_verts(pose, np.array([lo, hi], dtype=np.int64))
+        out.append((sg, tuple(int(x) for x in a.min(axis=0)), tuple(int(x) for x in a.max(axis=0))))
+    return out
+
+
+def geom_boxes(geom):
+    return pose_box_key(geom.get('pose') or IDENT_POSE, [(int(b[0]), tuple(b[1:4]), tuple(b[4:7])) for b in geom['csg']])
+
+
+def _int_verts(vol):
+    V = np.asarray(vol.vertices, dtype=float)
+    W = np.rint(V).astype(np.int64)
+    if not np.array_equal(W.astype(float), V):
+        raise BadMesh('history left the integer lattice')
+    return W
+
+
+def apply_mutator(vol, name, how, pose, geom2):
+    """One in-place change of the Volume object, exactly as a user would write it."""
+    s, f, idx, t = pose_parts(pose) if pose else (None, None, None, None)
+    if name == 'apply_translation':
+        vol.apply_translation([int(x) for x in t])
+    elif name == 'apply_scale':
+        vol.apply_scale(int(s[0]))
+    elif name == 'apply_transform':
+        vol.apply_transform(pose_matrix(pose))
+    elif name in ('vertices.setter', 'verts.setter') and geom2 is None:
+        W = pose_verts(pose, _int_verts(vol)).astype(float)
+        if name == 'verts.setter':
+            vol.verts = W
+        else:
+            vol.vertices = W
+        if pose_det_sign(pose) < 0:                 # keep the surface outward-wound (a valid volume)
+            vol.faces = np.asarray(vol.faces)[:, ::-1].copy()
+    elif name == 'vertices.setter':                 # replace the whole mesh by another solid
+        v2, _ = build_volume(geom2)
+        vol.vertices = np.asarray(v2.vertices).copy()
+        vol.faces = np.asarray(v2.faces).copy()
+    elif name == 'vertices[in-place-array-op]':
+        if how == 'imul':
+            vol.vertices *= np.array([int(x) for x in s], dtype=float)
+        elif how == 'imul_scalar':
+            vol.vertices *= int(s[0])
+        elif how == 'iadd':
+            vol.vertices += np.array([int(x) for x in t], dtype=float)
+        elif how == 'np_out':
+            np.multiply(vol.vertices, int(s[0]), out=vol.vertices)
+        elif how == 'slice':
+            vol.vertices[:, :] = np.asarray(vol.vertices) + np.array([int(x) for x in t], dtype=float)
+        else:
+            raise ValueError(how)
+    elif name == 'resize':
+        vol.resize(int(s[0]), method='origin', inplace=True)
+    else:
+        raise ValueError(name)
+
+
+def apply_derive(vol, kind, pose):
+    import copy as _copy, pickle as _pickle
+    s, f, idx, t = pose_parts(pose) if pose else (None, None, None, None)
+    if kind == 'copy':
+        return vol.copy()
+    if kind == 'copy.copy':
+        return _copy.copy(vol)
+    if kind == 'deepcopy':
+        return _copy.deepcopy(vol)
+    if kind == 'mul':
+        return vol * int(s[0])
+    if kind == 'mul_axes':
+        return vol * [int(x) for x in s]
+    if kind == 'add':
+        return vol + [int(x) for x in t]
+    if kind == 'sub':
+        return vol - [-int(x) for x in t]
+    if kind == 'resize_copy':
+        return vol.resize(int(s[0]), method='origin', inplace=False)
+    if kind == 'pickle':
+        return _pickle.loads(_pickle.dumps(vol))
+    raise ValueError(kind)
+
+
+def _chain_tree(pts2, nid=1):
+    nodes = [[i + 1, i, p[0], p[1], p[2]] for i, p in enumerate(pts2)]
+    return make_tree(nodes, None, nid=nid)
+
+
+def hist_query(vol, how, backend, n_rays, pts2):
+    """One navis call on the volume; canonical result: mask over `pts2` as a bit string (or `#k` = a count)."""
+    P = half(pts2)
+    kw = {'n_rays': n_rays}
+    if backend is not None:
+        kw['backend'] = backend
+    ids = list(range(1, len(pts2) + 1))
+    if how == 'points':
+        return bits(navis.in_volume(P, vol, **kw))
+    if how == 'frame':
+        return bits(navis.in_volume(pd.DataFrame(P, columns=['x', 'y', 'z']), vol, **kw))
+    if how in ('tree_in', 'tree_out', 'nl_in'):
+        t = _chain_tree(pts2)
+        if how == 'nl_in':
+            r = navis.in_volume(navis.NeuronList([t]), vol, mode='IN', **kw)[0]
+        else:
+            r = navis.in_volume(t, vol, mode='IN' if how == 'tree_in' else 'OUT', **kw)
+        kept = set(int(v) for v in r.nodes.node_id.values)
+        return bits([(i in kept) == (how != 'tree_out') for i in ids])
+    if how in ('prune_in', 'prune_out', 'prune_inplace'):
+        t = _chain_tree(pts2)
+        if how == 'prune_inplace':
+            t.prune_by_volume(vol, mode='IN', inplace=True); r = t
+        else:
+            r = t.prune_by_volume(vol, mode='IN' if how == 'prune_in' else 'OUT')
+        kept = set(int(v) for v in r.nodes.node_id.values)
+        return bits([(i in kept) == (how != 'prune_out') for i in ids])
+    if how == 'dict':
+        return bits(navis.in_volume(P, {'a': vol}, **kw)['a'])
+    if how == 'list':
+        r = navis.in_volume(P, [vol], **kw)
+        return bits(r[next(iter(r))])
+    if how == 'imat':
+        df = navis.intersection_matrix(navis.NeuronList([_chain_tree(pts2)]), {'v': vol}, attr='n_nodes', **kw)
+        return '#%d' % int(df.values[0, 0])
+    raise ValueError(how)
+
+
+def run_hist(ctx, case):
+    geom = case['geom']
+    try:
+        vol0, _ = build_volume(geom, name='h0')
+        for st in case['steps']:
+            if st[0] == 'm' and st[5] is not None:
+                build_volume(st[5])
+    except BadMesh as e:
+        ctx.count('bad_mesh', str(e)[:40]); return
+    shim = bool(case.get('shim'))
+    # per object: the list of boxes of its current solid — the Python mirror of what the model holds (`Pose.solid`)
+    keys = [geom_boxes(geom)]
+    objs = [vol0]
+    lineage = [[]]          # in-place mutators applied to the object (and, before it was derived, to its ancestors)
+    lines, qsteps = [], []
+    spec_attr = {b.split('=')[0]: b.split('=')[1].split('/')[0] for b in ctx.ask('c18.cachespec x').split('|')[0].split(',')}
+    with _Patched(shim):
+        for k, st in enumerate(case['steps']):
+            op = st[0]
+            if op == 'q':
+                _, i, how, backend, n_rays, pts2 = st
+                if any(int(v) % 2 == 0 for p in pts2 for v in p):
+                    ctx.count('skipped_point_on_surface'); return
+                eff_b = 'ncollpyde' if backend in (None, 'default') else (backend if isinstance(backend, str) else
+                                                                           next(b for b in backend if b != 'pyoctree' or shim))
+                eff_r = 0 if eff_b == 'scipy' else (n_rays if n_rays is not None else (3 if eff_b == 'ncollpyde' else 1))
+                _REC['key'], _REC['used'], _REC['built'] = json.dumps(keys[i]), [], 0
+                res, err = safe(lambda: hist_query(objs[i], how, None if backend == 'default' else backend, n_rays, pts2))
+                fresh = None if not _REC['used'] else all(u == _REC['key'] for u in _REC['used'])
+                qsteps.append((k, st, eff_b, res, err, fresh, _REC['built'], list(lineage[i])))
+                lines.append(f'q {i} {eff_b} {eff_r} {pts_str(pts2)}')
+                ctx.count('hist_query', f'{how}/{eff_b}/n_rays={n_rays}')
+            elif op == 'm':
+                _, i, name, how, pose, geom2 = st
+                try:
+                    apply_mutator(objs[i], name, how, pose, geom2)
+                except BadMesh as e:
+                    ctx.count('bad_mesh', str(e)[:40]); return
+                if geom2 is not None:
+                    keys[i] = geom_boxes(geom2)
+                    lines.append(f'm {i} {name} S:{solid_str(geom2)}')
+                else:
+                    keys[i] = pose_box_key(pose, keys[i])
+                    lines.append(f'm {i} {name} P:{pose_str(pose)}')
+                lineage[i].append(name)
+                ctx.count('hist_mutator', name + (f'/{how}' if how else '') + ('/replace' if geom2 is not None else ''))
+            elif op == 'c':
+                _, i, kind, pose = st
+                d, derr = safe(lambda: apply_derive(objs[i], kind, pose))
+                if derr:        # e.g. a Volume that cannot be pickled: not this property's business; the history ends here
+                    ctx.count('hist_derive_failed', f'{kind}: {derr[:60]}')
+                    break
+                if not isinstance(d, navis.Volume):
+                    # e.g. `unpickled.copy()` / `unpickled.resize(k)`: an unpickled Volume has lost the per-instance method
+                    # wrappers that turn trimesh results back into navis.Volume, so its copies are plain trimesh.Trimesh
+                    # (not this property's business; recorded).  Continue with the same mesh as a navis.Volume.
+                    ctx.count('hist_derived_not_a_Volume', f'{kind}: {type(d).__name__}')
+                    d = navis.Volume(np.asarray(d.vertices).copy(), np.asarray(d.faces).copy(), name='derived')
+                objs.append(d)
+                keys.append(pose_box_key(pose or IDENT_POSE, keys[i]))
+                lineage.append(list(lineage[i]) if kind == 'pickle' else [])
+                lines.append(f'p {i}' if kind == 'pickle' else f'c {i} P:{pose_str(pose or IDENT_POSE)}')
+                ctx.count('hist_derive', kind)
+            else:
+                raise ValueError(op)
+    model = ctx.ask('c18.hist ' + solid_str(geom) + ' | ' + ' | '.join(lines)).split(';')
+    mq = [m for m in model if m]
+    if len(mq) != len(qsteps):
+        ctx.corr(f'{len(qsteps)} queries', f'{len(mq)} answers', 'volume history: model answered every query', case); return
+    seen_mut = set()
+    for (k, st, eff_b, res, err, fresh, built, muts), mo in zip(qsteps, mq):
+        i = st[1]
+        where = f"history step {k}: {st[2]}(object {i}, backend={st[3]}, n_rays={st[4]}) after " \
+                f"{[s[2] for s in case['steps'][:k] if s[0] == 'm' and s[1] == i] or 'no change'}"
+        if mo == 'none' or err:
+            ctx.oracle(False, f'{where} raised: {err}', case)
+            continue
+        m_fresh, m_used, m_cur = mo.split(':')
+        cnt = res.startswith('#')
+        stale_cache_possible = spec_attr.get(eff_b, '-') != '-'
+        ctx.count('hist_fresh_flag', f'{eff_b}/model={m_fresh}/navis={ {None: "?", True: "1", False: "0"}[fresh] }')
+        ctx.count('hist_structures_built', f'{eff_b}/{built}')
+        # the open finding covers in-place changes OTHER than Volume.resize (which deletes the attribute)
+        sig = SIG_PYOC_STALE if (eff_b == 'pyoctree' and shim and any(m != 'resize' for m in muts)) else None
+        # (1) navis' answer vs the model's answer on the geometry the generated spec says is used, (2) the property: the
+        # answer is the inside/outside mask of the CURRENT geometry of this object (decided by Lean `mem`)
+        if eff_b != 'pyoctree':      # in_volume_pyoc rounds intersections to integers: its masks are not judged (freshness is)
+            want_used = ('#%d' % m_used.count('1')) if cnt else m_used
+            want_cur = ('#%d' % m_cur.count('1')) if cnt else m_cur
+            ctx.corr(res, want_used, f'{where}: answer vs model (geometry the generated cache spec says is used)', case)
+            why = (f'; it is the mask of the geometry an earlier ray-casting structure was built from ({want_used}): stale cache'
+                   if res == want_used and want_used != want_cur else '')
+            ctx.oracle(res == want_cur, f'{where}: answer {res} is not the inside/outside mask of the current geometry '
+                                        f'({want_cur}){why}', case)
+        # (3) the state machine extracted from the source predicts which geometry navis answered from, (4) the property:
+        # the structure the answer came from was built from the mesh as it is now
+        if fresh is not None:
+            ctx.corr('1' if fresh else '0', m_fresh,
+                     f'{where}: structure built from the current mesh? (navis, observed) vs state machine on the generated spec',
+                     case, signature=sig)
+            ctx.oracle(fresh, f'{where}: the answer was computed from a ray-casting structure built for an EARLIER geometry of '
+                              f'this Volume object (stale cache)', case, signature=sig)
+    ctx.count('hist_len', len(case['steps']))
+    pat = 'no'
+    last = {}
+    for st in case['steps']:
+        if st[0] == 'q':
+            key = (st[1], json.dumps(st[3]), st[4])
+            if last.get(key) == 'mutated':
+                pat = 'yes'
+            last[key] = 'queried'
+        elif st[0] == 'm':
+            for key in list(last):
+                if key[0] == st[1]:
+                    last[key] = 'mutated'
+    ctx.count('hist_query_mutate_query_same_rays', pat)
+
+
+def fixed_hists():
+    """Systematic part of the history stream: for EVERY in-place mutator `query, mutate, query` (same ray count), and for every
+    copy-like derivation `query, derive, mutate the original, query both` — on an L-shaped solid, independent of the PRNG."""
+    geom = {'shape': 'L', 'csg': [[1, 0, 0, 0, 3, 1, 1], [1, 0, 0, 0, 1, 2, 1]], 'pose': [1, 1, 1, 0, 0, 0, 'xyz', 2, 0, 0], 'tri': 7}
+    geom2 = {'shape': 'box', 'csg': [[1, 0, 0, 0, 1, 1, 2]], 'pose': [1, 1, 1, 0, 0, 0, 'xyz', -3, 0, 0], 'tri': 3}
+    P = lambda **k: [k.get('s', 1)] * 3 + [0, 0, 0, 'xyz'] + k.get('t', [0, 0, 0])
+    # points: centres of the cells of the solid before the change and of a few positions it is moved / scaled to
+    cells = [(2, 0, 0), (3, 0, 0), (4, 0, 0), (2, 1, 0), (9, 0, 0), (10, 0, 0), (4, 0, 1), (9, 1, 0), (5, 1, 0), (-3, 0, 0), (-3, 0, 1),
+             (6, 1, 1), (7, 0, 1), (8, 2, 1), (-4, 0, 0), (0, 0, 0), (5, 0, 0), (8, 0, 0)]
+    pts = [[2 * c[0] + 1, 2 * c[1] + 1, 2 * c[2] + 1] for c in cells]
+    muts = [('apply_translation', None, P(t=[7, 0, 0]), None), ('apply_scale', None, P(s=2), None),
+            ('apply_transform', None, [1, 1, 1, 1, 0, 0, 'xyz', 12, 0, 0], None), ('apply_transform', None, [2, 1, 1, 0, 0, 0, 'yxz', 1, 2, 0], None),
+            ('vertices.setter', None, P(t=[7, 0, 0]), None), ('vertices.setter', None, [1, 1, 1, 0, 1, 0, 'xyz', 0, 1, 0], None),
+            ('verts.setter', None, P(s=2), None),
+            ('vertices[in-place-array-op]', 'imul', [2, 1, 3, 0, 0, 0, 'xyz', 0, 0, 0], None),
+            ('vertices[in-place-array-op]', 'imul_scalar', P(s=2), None), ('vertices[in-place-array-op]', 'iadd', P(t=[7, 0, 0]), None),
+            ('vertices[in-place-array-op]', 'np_out', P(s=3), None), ('vertices[in-place-array-op]', 'slice', P(t=[-6, 0, 0]), None),
+            ('resize', None, P(s=2), None), ('vertices.setter', None, None, geom2)]
+    for j, (name, how, pose, g2) in enumerate(muts):
+        for qhow, backend, nr in [('points', 'default', None), ('tree_out', 'ncollpyde', 2), ('prune_in', 'default', None)][j % 3:][:2]:
+            yield {'geom': geom, 'shim': False,
+                   'steps': [['q', 0, qhow, backend, nr, pts], ['m', 0, name, how, pose or list(IDENT_POSE), g2], ['q', 0, qhow, backend, nr, pts],
+                             ['q', 0, 'points', 'default', 5, pts]]}
+        yield {'geom': geom, 'shim': True,
+               'steps': [['q', 0, 'points', 'pyoctree', None, pts], ['m', 0, name, how, pose or list(IDENT_POSE), g2],
+                         ['q', 0, 'points', 'pyoctree', None, pts], ['q', 0, 'points', 'ncollpyde', None, pts]]}
+    for kind, pose in [('copy', None), ('copy.copy', None), ('deepcopy', None), ('pickle', None), ('mul', P(s=2)),
+                       ('mul_axes', [1, 2, 1, 0, 0, 0, 'xyz', 0, 0, 0]), ('add', P(t=[7, 0, 0])), ('sub', P(t=[-2, 0, 0])),
+                       ('resize_copy', P(s=3))]:
+        for shim, b in ((False, 'default'), (True, 'pyoctree')):
+            yield {'geom': geom, 'shim': shim,
+                   'steps': [['q', 0, 'points', b, None, pts], ['c', 0, kind, pose], ['q', 1, 'points', b, None, pts],
+                             ['m', 0, 'apply_translation', None, P(t=[7, 0, 0]), None], ['q', 0, 'points', b, None, pts],
+                             ['q', 1, 'points', b, None, pts], ['m', 1, 'resize', None, P(s=2), None], ['q', 1, 'points', b, None, pts],
+                             ['q', 0, 'points', b, None, pts]]}
+
+
+# -- generator ------------------------------------------------------------------------------------------------------
+def _compose(A, T, pose):
+    M = pose_matrix(pose)
+    L = M[:3, :3].astype(np.int64); t = M[:3, 3].astype(np.int64)
+    return L @ A, L @ T + t
+
+
+def _cell_point2(A, T, cell, rnd):
+    c0 = A @ np.array(cell, dtype=np.int64) + T
+    c1 = A @ (np.array(cell, dtype=np.int64) + 1) + T
+    lo, hi = np.minimum(c0, c1), np.maximum(c0, c1)
+    return [int(2 * lo[a] + 2 * rnd.randrange(int(hi[a] - lo[a])) + 1) for a in range(3)]
+
+
+def gen_hist(rnd, q, shim=False):
+    geom = gen_geom(rnd, shape=rnd.choice(['box', 'box', 'L', 'U', 'torus', 'shell', 'nested', 'disjoint', 'grow', 'csg']),
+                    poly=False, pose_kind=rnd.choice(['ident', 'trans', 'full']))
+    geom['pose'][0:3] = [min(x, 2) for x in geom['pose'][0:3]]          # keep coordinates small: histories multiply scales
+
+    def base(g):
+        A, T = _compose(np.eye(3, dtype=np.int64), np.zeros(3, dtype=np.int64), g['pose'])
+        return {'vox': sorted(voxelise(g['csg'])), 'A': A, 'T': T, 'convex': g['shape'] == 'box'}
+    # per object: list of versions (old geometries are where a stale structure answers differently)
+    objs = [[base(geom)]]
+    steps = []
+    main_rays = rnd.choice([None, None, 1, 2, 3, 5])
+    hows = ['points', 'points', 'points', 'frame', 'tree_in', 'tree_out', 'nl_in', 'prune_in', 'prune_out', 'prune_inplace',
+            'dict', 'list', 'imat']
+
+    def points(i):
+        vs = objs[i]
+        pts = []
+        for _ in range(rnd.randrange(6, 14 if q else 30)):
+            r = rnd.random()
+            v = vs[-1] if r < 0.4 else rnd.choice(vs)
+            if r < 0.85 and v['vox']:
+                pts.append(_cell_point2(v['A'], v['T'], rnd.choice(v['vox']), rnd))
+            else:
+                c = _cell_point2(vs[-1]['A'], vs[-1]['T'], rnd.choice(vs[-1]['vox']), rnd)
+                pts.append([c[a] + 2 * rnd.randrange(-6, 7) for a in range(3)])
+        return pts
+
+    def query(i):
+        cur = objs[i][-1]
+        how = rnd.choice(hows)
+        if shim and rnd.random() < 0.6:
+            backend, how = 'pyoctree', rnd.choice(['points', 'points', 'tree_in', 'dict'])
+        elif cur['convex'] and rnd.random() < 0.15:
+            backend = rnd.choice(['scipy', ['pyoctree', 'scipy']]) if not shim else 'scipy'
+            how = 'points'
+        else:
+            backend = rnd.choice(['default', 'default', 'ncollpyde', ['ncollpyde', 'pyoctree']] + ([] if shim else [['pyoctree', 'ncollpyde']]))
+        n_rays = main_rays if rnd.random() < 0.7 else rnd.choice([None, 1, 2, 3, 5, 8])
+        if how.startswith('prune'):
+            backend, n_rays = 'default', None
+        if backend == 'pyoctree' and n_rays is not None:
+            n_rays = min(n_rays, 2)
+        return ['q', i, how, backend, n_rays, points(i)]
+
+    def mutate(i):
+        cur = objs[i][-1]
+        scale_now = int(abs(cur['A']).max())
+        kinds = ['apply_translation', 'apply_translation', 'apply_transform', 'vertices.setter', 'verts.setter',
+                 'vertices[in-place-array-op]', 'vertices[in-place-array-op]', 'resize', 'replace']
+        if scale_now <= 8:
+            kinds += ['apply_scale']
+        name = rnd.choice(kinds)
+        how, geom2 = None, None
+        tr = lambda: [rnd.choice((-1, 1)) * rnd.randrange(1, rnd.choice((4, 12, 60))) if rnd.random() < 0.7 else 0 for _ in range(3)]
+        pose = list(IDENT_POSE)
+        small = scale_now <= 8
+        if name == 'apply_translation':
+            pose[7:10] = tr()
+        elif name == 'apply_scale':
+            pose[0:3] = [rnd.choice((2, 3))] * 3
+        elif name in ('apply_transform', 'vertices.setter', 'verts.setter'):
+            pose = gen_pose(rnd, rnd.choice(['trans', 'flip', 'perm', 'full']))
+            pose[0:3] = [min(x, 2) if small else 1 for x in pose[0:3]]
+            pose[7:10] = [max(-60, min(60, x)) for x in pose[7:10]]
+        elif name == 'vertices[in-place-array-op]':
+            how = rnd.choice(['imul', 'imul_scalar', 'iadd', 'np_out', 'slice'] if small else ['iadd', 'slice'])
+            if how == 'imul':
+                pose[0:3] = [rnd.choice((1, 2, 3)) for _ in range(3)]
+            elif how in ('imul_scalar', 'np_out'):
+                pose[0:3] = [rnd.choice((2, 3))] * 3
+            else:
+                pose[7:10] = tr()
+        elif name == 'resize':
+            pose[0:3] = [rnd.choice((2, 3) if small else (1,))] * 3
+        else:
+            name = 'vertices.setter'
+            geom2 = gen_geom(rnd, poly=False, pose_kind=rnd.choice(['ident', 'trans']))
+        if geom2 is None and pose == IDENT_POSE:      # never an identity change
+            name, how = 'apply_translation', None
+            pose[7] = 3
+        if geom2 is not None:
+            objs[i].append(base(geom2))
+        else:
+            A, T = _compose(cur['A'], cur['T'], pose)
+            objs[i].append({'vox': cur['vox'], 'A': A, 'T': T, 'convex': cur['convex']})
+        return ['m', i, name, how, pose, geom2]
+
+    def derive(i):
+        cur = objs[i][-1]
+        small = int(abs(cur['A']).max()) <= 8
+        kind = rnd.choice(['copy', 'copy.copy', 'deepcopy', 'pickle', 'pickle', 'add', 'sub'] + (['mul', 'mul_axes', 'resize_copy'] if small else []))
+        pose = list(IDENT_POSE)
+        if kind in ('mul', 'resize_copy'):
+            pose[0:3] = [rnd.choice((2, 3))] * 3
+        elif kind == 'mul_axes':
+            pose[0:3] = [rnd.choice((1, 2, 3)) for _ in range(3)]
+        elif kind in ('add', 'sub'):
+            pose[7:10] = [rnd.randrange(-9, 10) for _ in range(3)]
+        A, T = _compose(cur['A'], cur['T'], pose)
+        # a derived object starts with the history of its parent (a structure carried over would be built from one of those)
+        objs.append([dict(v) for v in objs[i][:-1]] + [{'vox': cur['vox'], 'A': A, 'T': T, 'convex': cur['convex']}])
+        return ['c', i, kind, pose]
+
+    n = rnd.randrange(3, 8 if q else 14)
+    if rnd.random() < 0.85:
+        steps.append(query(0))
+    for _ in range(n):
+        i = rnd.randrange(len(objs)) if rnd.random() < 0.5 else 0
+        r = rnd.random()
+        if r < 0.42:
+            steps.append(mutate(i))
+            if rnd.random() < 0.75:
+                steps.append(query(i))
+        elif r < 0.8:
+            steps.append(query(i))
+        elif len(objs) < 4:
+            steps.append(derive(i))
+            if rnd.random() < 0.6:
+                steps.append(query(len(objs) - 1))
+            if rnd.random() < 0.4:
+                steps.append(query(i))
+    if steps[-1][0] != 'q':
+        steps.append(query(steps[-1][1] if steps[-1][0] == 'm' else len(objs) - 1))
+    return {'geom': geom, 'steps': steps, 'shim': shim}
+
+
+# ---------------------------------------------------------------------------------------------------------------
+# (f) VoxelNeuron, back-end selection / ray counts, snap with ties, points ON the surface (recorded only)
+# ---------------------------------------------------------------------------------------------------------------
+def make_vox(case):
+    cells = np.array(case['cells'], dtype=np.int64).reshape(-1, 3)
+    vals = np.array(case['values'], dtype=float)
+    if case.get('from') == 'grid':
+        shape = cells.max(axis=0) + 1 + np.array(case.get('pad', [0, 0, 0]))
+        g = np.zeros(tuple(int(x) for x in shape), dtype=float)
+        g[cells[:, 0], cells[:, 1], cells[:, 2]] = vals
+        return navis.VoxelNeuron(g, units=case['units'], offset=case['offset'], id=9)
+    n = navis.VoxelNeuron(cells.copy(), units=case['units'], offset=case['offset'], id=9)
+    n.values = vals
+    return n
+
+
+def run_vox(ctx, case):
+    geom = case['geom']
+    try:
+        vol, vox = build_volume(geom)
+    except BadMesh as e:
+        ctx.count('bad_mesh', str(e)[:40]); return
+    S = solid_str(geom)
+    u, o = case['units'], case['offset']
+    cells, vals = case['cells'], case['values']
+    if case.get('from') == 'grid':        # a grid lists its voxels in row-major order
+        order = sorted(range(len(cells)), key=lambda i: cells[i])
+        cells, vals = [cells[i] for i in order], [vals[i] for i in order]
+    centres = [[2 * c[a] * u[a] + u[a] + 2 * o[a] for a in range(3)] for c in cells]
+    if surface_guard(ctx, [geom], centres):
+        return
+    ctx.count('vox', f"{case.get('from', 'table')}/{case['call']}/units={u}")
+    res = {}
+    for mode in ('IN', 'OUT'):
+        args = f"{mode} | {S} | {pts_str(cells)} | {ints(vals)} | {ints(u)} | {ints(o)}"
+        model = ctx.ask('c18.vox ' + args)
+        n = make_vox(case)
+        if case['call'] == 'in_volume':
+            r, err = safe(lambda: navis.in_volume(n, vol, mode=mode, n_rays=case.get('n_rays')))
+        elif case['call'] == 'inplace':
+            def fn():
+                navis.in_volume(n, vol, mode=mode, inplace=True)
+                return n
+            r, err = safe(fn)
+        else:
+            r, err = safe(lambda: navis.in_volume(navis.NeuronList([n]), vol, mode=mode)[0])
+        if err:
+            ctx.oracle(False, f"{case['call']}(VoxelNeuron, mode={mode}) raised: {err}", case); continue
+        kc = [[int(x) for x in c] for c in np.asarray(r.voxels).reshape(-1, 3)]
+        kv = [int(x) for x in np.asarray(r.values)]
+        ctx.corr(f'{pts_str(kc)}|{ints(kv)}', model, f"{case['call']}(VoxelNeuron, mode={mode}) kept voxels|values vs model", case)
+        ok = len(kc) == len(kv) and ctx.ask(f'c18.chkvox {args} | {pts_str(kc)} | {ints(kv)}') == '1'
+        ctx.oracle(ok, f"{case['call']}(VoxelNeuron, mode={mode}): kept (voxel, value) rows {list(zip(map(tuple, kc), kv))} are not "
+                       f"exactly the rows whose voxel centre is {mode.lower()}side the volume", case)
+        if case['call'] != 'inplace':
+            ctx.oracle(len(n.voxels) == len(cells), 'in_volume(VoxelNeuron) modified its input', case)
+        res[mode] = kc
+    if len(res) == 2:
+        both = sorted(map(tuple, res['IN'] + res['OUT']))
+        ctx.oracle(both == sorted(map(tuple, cells)), f"VoxelNeuron: IN keeps {res['IN']}, OUT keeps {res['OUT']}: not a partition "
+                                                      f"of the voxels {cells}", case)
+        ctx.count('vox_split', 'both' if res['IN'] and res['OUT'] else ('all-in' if res['IN'] else 'all-out'))
+
+
+def run_backend(ctx, case):
+    """Which back-end `in_volume` picks for a request, and what the ray-count preamble does with `n_rays`."""
+    geom = case['geom']
+    try:
+        vol, vox = build_volume(geom)
+    except BadMesh as e:
+        ctx.count('bad_mesh', str(e)[:40]); return
+    if surface_guard(ctx, [geom], case['pts']):
+        return
+    P = half(case['pts'])
+    req, n_rays, shim = case['backend'], case['n_rays'], bool(case.get('shim'))
+    avail = ['ncollpyde'] + (['pyoctree'] if shim else [])
+    reqs = [req] if isinstance(req, str) else list(req)
+    m_b = ctx.ask(f"c18.backend {','.join(avail)} | {','.join(reqs)}")
+    dflt = {'ncollpyde': 3, 'pyoctree': 1}.get(m_b)
+    m_r = ctx.ask(f"c18.rays {dflt} | {n_rays}") if dflt is not None else 'n/a'
+    with _Patched(shim):
+        _REC['key'], _REC['used'], _REC['built'], _REC['kinds'], _REC['rays'] = 'k', [], 0, [], []
+        res, err = safe(lambda: navis.in_volume(P, vol, backend=req, n_rays=n_rays))
+        kinds, rays = list(_REC.get('kinds', [])), list(_REC.get('rays', []))
+    ctx.count('backend_request', f"{req}/shim={shim} -> {m_b}/rays {n_rays}->{m_r}")
+    if m_b == 'ERR:none-available':
+        ctx.corr('ERR' if err and 'None of the specified backends' in err else f'no error: {err}', 'ERR',
+                 'in_volume refuses when no requested back-end is available', case)
+        return
+    if m_r == 'ERR:value':
+        ctx.corr('ERR' if err else 'no error', 'ERR', 'n_rays <= 0 is refused', case)
+        return
+    if err:
+        ctx.oracle(False, f'in_volume(points, backend={req}, n_rays={n_rays}) raised: {err}', case); return
+    obs = (kinds[0] if kinds else 'scipy')
+    ctx.corr(obs, m_b, 'back-end that answered (observed: which structure was built) vs first available requested back-end', case)
+    if obs == 'ncollpyde' and rays:       # recorded only: the property is about the answer, not about how many rays produce it
+        ctx.count('ncollpyde_rays_as_requested', str(rays[0]) == m_r)
+    if m_b != 'pyoctree' and (m_b != 'scipy' or geom.get('shape') in CONVEX):
+        model = ctx.ask(f'c18.mem {solid_str(geom)} | {pts_str(case["pts"])}')
+        ctx.oracle(bits(res) == model, f'in_volume(points, backend={req}, n_rays={n_rays}) = {bits(res)} is not the exact mask {model}', case)
+
+
+def run_snaptie(ctx, case):
+    """snap with exact ties: navis may return any nearest row — decided by the Lean checker alone."""
+    kind, to = case['ntype'], case['to']
+    data, ids, qs = case['data'], case.get('ids'), case['queries']
+    D = np.array(data, dtype=float).reshape(-1, 3)
+    if kind == 'tree':
+        df = pd.DataFrame({'node_id': np.array(ids, dtype=np.int64), 'parent_id': np.array([-1] + ids[:-1], dtype=np.int64),
+                           'x': D[:, 0], 'y': D[:, 1], 'z': D[:, 2], 'radius': 0.01})
+        x = navis.TreeNeuron(df, id=1)
+        if to == 'connectors':
+            x.connectors = pd.DataFrame({'connector_id': np.array(ids, dtype=np.int64) + 1000, 'node_id': np.array(ids, dtype=np.int64),
+                                         'x': D[:, 0], 'y': D[:, 1], 'z': D[:, 2], 'type': 0})
+    elif kind == 'dots':
+        x = navis.Dotprops(D, k=None, vect=np.tile([1., 0., 0.], (len(D), 1)), id=1)
+    else:
+        x = navis.MeshNeuron((D, np.array([[j, j + 1, j + 2] for j in range(len(D) - 2)], dtype=np.int64)), id=1)
+        if len(x.vertices) != len(D) or not np.array_equal(np.asarray(x.vertices), D):
+            ctx.count('snap_skipped', 'mesh vertices reprocessed'); return
+    if case.get('bad_to'):
+        r, err = safe(lambda: x.snap(qs, to=case['bad_to']))
+        ctx.corr('ERR' if err and 'ValueError' in err else f'no error ({err})', 'ERR', f'{kind}.snap(to={case["bad_to"]!r}) is refused', case)
+        return
+    ctx.count('snap_tie', f'{kind}/{to}')
+    r, err = safe(lambda: x.snap(qs, to=to))
+    if err:
+        ctx.oracle(False, f'{kind}.snap(to={to}) raised: {err}', case); return
+    tids = ([i + 1000 for i in ids] if to == 'connectors' else ids) if kind == 'tree' else None
+    nties = 0
+    for q, gi, gd in zip(qs, [int(v) for v in np.asarray(r[0])], [float(v) for v in np.asarray(r[1])]):
+        row = tids.index(gi) if tids and gi in tids else (gi if not tids else -1)
+        d2 = round(gd * gd)
+        ok = row >= 0 and gd == math.sqrt(d2) and ctx.ask(f'c18.chknear {pts_str(data)} | {q[0]},{q[1]},{q[2]} | {row} | {d2}') == '1'
+        ctx.oracle(ok, f'{kind}.snap({q}, to={to}) returned ({gi}, {gd}): not a nearest {to[:-1]} with its exact distance '
+                       f'(ties allowed)', case)
+        ds = [_d2(q, p) for p in data]
+        nties += ds.count(min(ds)) > 1
+    ctx.count('snap_tie_queries_with_tie', nties)
+
+
+def run_pyocrays(ctx, case):
+    """`in_volume_pyoc` (run on the brute-force stand-in for pyoctree): the n-ray answer is the bounding-box test AND the
+    conjunction of the single-ray answers obtained with the same ray origins (same numpy random state) — the consensus loop,
+    tied to `pyocLoop` without judging the geometric exactness of the rounding in that function."""
+    geom = case['geom']
+    try:
+        vol, vox = build_volume(geom)
+    except BadMesh as e:
+        ctx.count('bad_mesh', str(e)[:40]); return
+    if surface_guard(ctx, [geom], case['pts']):
+        return
+    P = half(case['pts'])
+    k, sd = case['n_rays'], case['seed']
+    with _Patched(True):
+        _REC['key'], _REC['used'], _REC['built'] = 'k', [], 0
+        st = np.random.get_state()
+        try:
+            np.random.seed(sd)
+            full, err = safe(lambda: navis.in_volume(P, vol, backend='pyoctree', n_rays=k))
+            singles = []
+            for i in range(k):
+                np.random.seed(sd); np.random.rand(3 * i)
+                r, e2 = safe(lambda: navis.in_volume(P, vol, backend='pyoctree', n_rays=1))
+                err = err or e2
+                singles.append(r)
+        finally:
+            np.random.set_state(st)
+    if err:
+        ctx.oracle(False, f'in_volume(points, backend=pyoctree, n_rays={k}) raised: {err}', case); return
+    V = np.asarray(vol.vertices)
+    bb = bits(((P <= V.max(axis=0)) & (P >= V.min(axis=0))).all(axis=1))
+    model = ctx.ask(f"c18.pyoc {bb} | {';'.join(bits(x) for x in singles)}")
+    ctx.corr(bits(full), model, f'in_volume_pyoc with {k} rays vs bounding box AND conjunction of its single-ray answers', case)
+    ctx.count('pyoc_rays', f'n_rays={k}/in={bits(full).count("1")}/bbox={bb.count("1")}')
+    exact = ctx.ask(f'c18.mem {solid_str(geom)} | {pts_str(case["pts"])}')
+    ctx.count('pyoc_vs_exact (not judged)', 'equal' if exact == bits(full) else 'differs')
+
+
+def run_boundary(ctx, case):
+    """Points exactly ON the surface (face interior / edge / vertex) are outside the property's quantifier: whatever navis
+    answers is accepted; recorded so that the evidence shows the rule in force.  Only crash-freedom and shape are required."""
+    geom = case['geom']
+    try:
+        vol, vox = build_volume(geom)
+    except BadMesh as e:
+        ctx.count('bad_mesh', str(e)[:40]); return
+    P = half(case['pts'])
+    res, err = safe(lambda: navis.in_volume(P, vol, n_rays=case.get('n_rays')))
+    ctx.oracle(err is None and len(res) == len(P), f'in_volume on surface points raised / wrong shape: {err}', case)
+    if err is None:
+        for cls, b in zip(case['classes'], res):
+            ctx.count('on_surface_answer', f'{cls}={"in" if b else "out"}')
 
 
 # ---------------------------------------------------------------------------------------------------------------
@@ -1069,6 +1860,90 @@ def gen_cases(ctx):
     big = not q
     nr_all = [None, 1, 2, 3, 5, 8]
 
+    # (e) volume histories (one Volume object: query, change in place, query again; copies / pickles in between);
+    # every fourth history runs with the pyoctree stand-in so that `in_volume_pyoc` and its cache attribute execute
+    if not ctx.search_mode:
+        for h in fixed_hists():
+            yield 'hist', h
+    for i in range(ctx.budget(60, 700)):
+        yield 'hist', gen_hist(rnd, q, shim=(i % 4 == 3))
+
+
+    # (f1) VoxelNeuron
+    for i in range(ctx.budget(50, 500)):
+        geom = gen_geom(rnd, poly=False)
+        lo, hi = posed_bbox2(geom)
+        u = rnd.choice([[1, 1, 1], [1, 1, 1], [3, 3, 3], [1, 3, 1], [3, 1, 5]])
+        frm = 'grid' if i % 4 == 3 else 'table'
+        o = [rnd.randrange(-4, 5) for _ in range(3)]
+        cells = []
+        gvox = sorted(voxelise(geom['csg']))
+        for _ in range(rnd.randrange(1, 14 if q else 40)):
+            if rnd.random() < 0.55:     # the voxel containing a point of the solid (its centre is usually inside too)
+                p2 = point_in_cell2(geom, rnd.choice(gvox), rnd)
+                c = [((p2[a] - 1) // 2 - o[a]) // u[a] for a in range(3)]
+            else:
+                c = []
+                for a in range(3):
+                    c0 = (int(lo[a]) // 2 - o[a]) // u[a] - 2
+                    c1 = (int(hi[a]) // 2 - o[a]) // u[a] + 2
+                    c.append(rnd.randrange(c0, c1 + 1))
+            cells.append(c)
+        cells = distinct_points(cells)
+        if frm == 'grid':               # grid indices are non-negative: shift the indices, compensate with the offset
+            mn = [min(c[a] for c in cells) for a in range(3)]
+            cells = [[c[a] - mn[a] for a in range(3)] for c in cells]
+            o = [o[a] + mn[a] * u[a] for a in range(3)]
+        vals = rnd.sample(range(1, 1000), len(cells))
+        yield 'vox', {'geom': geom, 'cells': cells, 'values': vals, 'units': u, 'offset': o, 'from': frm,
+                      'pad': [rnd.randrange(0, 2) for _ in range(3)],
+                      'call': ['in_volume', 'in_volume', 'inplace', 'neuronlist'][i % 4], 'n_rays': rnd.choice(nr_all)}
+
+    # (f2) back-end selection and ray counts
+    reqs = ['ncollpyde', 'pyoctree', 'scipy', ['ncollpyde', 'pyoctree'], ['pyoctree', 'ncollpyde'], ['pyoctree', 'scipy'],
+            ['scipy', 'ncollpyde'], ['pyoctree'], ['pyoctree', 'pyoctree', 'ncollpyde']]
+    for i in range(ctx.budget(40, 300)):
+        geom = gen_geom(rnd, shape='box' if i % 2 else None, poly=False)
+        vox = sorted(voxelise(geom['csg']))
+        yield 'backend', {'geom': geom, 'pts': query_points2(geom, vox, rnd, 10), 'backend': reqs[i % len(reqs)],
+                          'n_rays': rnd.choice([None, None, 1, 2, 3, 5, 8, 0, -1]), 'shim': i % 3 == 2}
+
+    # (f3) snap with exact ties (lattice data, queries at lattice midpoints) and refused `to=` values
+    for i in range(ctx.budget(60, 500)):
+        kind, to = [('tree', 'nodes'), ('tree', 'connectors'), ('dots', 'points'), ('mesh', 'vertices'), ('mesh', 'vertex')][i % 5]
+        span = rnd.choice((2, 3, 4))
+        data = distinct_points([[2 * rnd.randrange(-span, span) for _ in range(3)] for _ in range(rnd.randrange(3, 12))])
+        if len(data) < 3:
+            continue
+        qs = []
+        for _ in range(rnd.randrange(1, 6)):
+            a, b = rnd.sample(data, 2)
+            qs.append([(a[k] + b[k]) // 2 for k in range(3)] if rnd.random() < 0.7 else [rnd.randrange(-2 * span, 2 * span) for _ in range(3)])
+        case = {'ntype': kind, 'to': to, 'data': data, 'ids': gen_ids(rnd, len(data)) if kind == 'tree' else None, 'queries': qs}
+        if i % 17 == 16:
+            case['bad_to'] = rnd.choice(['node', 'synapses', 'point', ''])
+        yield 'snaptie', case
+
+
+    # (f5) in_volume_pyoc ray consensus (pyoctree stand-in)
+    for i in range(ctx.budget(25, 200)):
+        geom = gen_geom(rnd, poly=False, minscale=2)
+        vox = sorted(voxelise(geom['csg']))
+        yield 'pyocrays', {'geom': geom, 'pts': query_points2(geom, vox, rnd, 12), 'n_rays': rnd.choice((1, 2, 2, 3, 4)),
+                           'seed': rnd.randrange(1 << 30)}
+
+    # (f4) points exactly on the surface: recorded, not judged
+    for i in range(ctx.budget(10, 60)):
+        geom = gen_geom(rnd, shape='box', pose_kind='trans')
+        b = geom['csg'][0]
+        t = geom['pose'][7:10]
+        lo2 = [2 * (b[1 + a] + t[a]) for a in range(3)]; hi2 = [2 * (b[4 + a] + t[a]) for a in range(3)]
+        mid = [(lo2[a] + hi2[a]) // 2 | 1 for a in range(3)]
+        mid = [min(max(mid[a], lo2[a] + 1), hi2[a] - 1) for a in range(3)]
+        pts = [[lo2[0], mid[1], mid[2]], [hi2[0], mid[1], mid[2]], [lo2[0], lo2[1], mid[2]], [hi2[0], mid[1], hi2[2]], lo2, hi2]
+        yield 'boundary', {'geom': geom, 'pts': pts, 'classes': ['face', 'face', 'edge', 'edge', 'vertex', 'vertex'],
+                           'n_rays': rnd.choice(nr_all)}
+
     # (a) points: every shape first, then random
     for i in range(ctx.budget(120, 1200)):
         shape = ALL_SHAPES[i % len(ALL_SHAPES)] if i < 3 * len(ALL_SHAPES) else None
@@ -1101,7 +1976,8 @@ def gen_cases(ctx):
         if i % 6 == 0 and vox:
             pts = distinct_points([point_in_cell2(geom, rnd.choice(vox), rnd) for _ in range(4)])
         conns = None if i % 5 == 4 else gen_pconns(rnd, pts, rnd.randrange(0, 8))
-        yield 'dots', {'geom': geom, 'pts': pts, 'conns': conns, 'call': 'in_volume'}
+        yield 'dots', {'geom': geom, 'pts': pts, 'conns': conns,
+                       'call': ['in_volume', 'inplace', 'in_volume', 'neuronlist'][i % 4]}
 
     # (b3) MeshNeuron: small tetrahedra (and loose triangles) spread over the scene
     for i in range(ctx.budget(70, 700)):
@@ -1133,7 +2009,8 @@ def gen_cases(ctx):
         if not verts:
             continue
         conns = None if i % 5 == 4 else gen_pconns(rnd, verts, rnd.randrange(0, 6))
-        yield 'mesh', {'geom': geom, 'verts': verts, 'faces': faces, 'conns': conns, 'call': 'in_volume'}
+        yield 'mesh', {'geom': geom, 'verts': verts, 'faces': faces, 'conns': conns,
+                       'call': ['in_volume', 'in_volume', 'inplace', 'neuronlist'][(i // 2) % 4]}
 
     # (c) several volumes
     for i in range(ctx.budget(60, 600)):
@@ -1187,8 +2064,12 @@ def gen_cases(ctx):
                 trees.append([nodes, conns])
         if not trees:
             continue
-        yield 'imat', {'vols': list(zip(names, vols)), 'how': rnd.choice(['dict', 'list']), 'mode': rnd.choice(['IN', 'OUT']),
-                       'default_mode': rnd.random() < 0.5, 'trees': trees}
+        how = rnd.choice(['dict', 'list'])
+        if how == 'list' and k > 1 and i % 5 == 4:
+            names[-1] = names[0]
+        yield 'imat', {'vols': list(zip(names, vols)), 'how': how, 'mode': rnd.choice(['IN', 'OUT']),
+                       'default_mode': rnd.random() < 0.5, 'trees': trees, 'attr': ['n_nodes', 'n_nodes', None, 'n_connectors'][i % 4],
+                       'single': rnd.random() < 0.5}
 
     # (d) snap
     combos = [('tree', 'nodes'), ('tree', 'connectors'), ('dots', 'points'), ('dots', 'connectors'),
@@ -1229,7 +2110,7 @@ def gen_cases(ctx):
         yield 'snap', case
 
 
-RUNNERS = {'points': run_points, 'tree': run_tree, 'dots': run_dots, 'mesh': run_mesh, 'multi': run_multi,
+RUNNERS = {'pyocrays': run_pyocrays, 'vox': run_vox, 'backend': run_backend, 'snaptie': run_snaptie, 'boundary': run_boundary, 'hist': run_hist, 'points': run_points, 'tree': run_tree, 'dots': run_dots, 'mesh': run_mesh, 'multi': run_multi,
            'imat': run_imat, 'snap': run_snap}
 
 
@@ -1248,6 +2129,14 @@ def nontrivial(kind, case):
         return True
     if kind == 'snap':
         return len(case['data']) >= 2 or bool(case.get('cdata'))
+    if kind == 'hist':
+        seen = set()
+        for st in case['steps']:
+            if st[0] == 'm':
+                seen.add(st[1])
+            elif st[0] == 'q' and st[1] in seen:
+                return True
+        return False
     return True
 
 
@@ -1260,13 +2149,24 @@ def run(ctx):
         'volume by trimesh. streams: points (masks; back-ends, n_rays, input kinds), tree / dots / mesh (IN and OUT pruning with '
         'connectors; sparse, shuffled, >2^31 and 0 ids; all-inside / all-outside / mixed), multi (dict / list of 1-4 volumes, '
         'shuffled, duplicated names, same volume twice), imat, snap (TreeNeuron/Dotprops/MeshNeuron × nodes/points/vertices/'
-        'connectors, integer coordinates, unique nearest neighbour, single and (N,3) queries). non-trivial: ≥4 query points / ≥2 '
-        'nodes or points / ≥4 vertices / ≥2 volumes / ≥2 candidate rows; distinct = distinct JSON digest')
+        'connectors, integer coordinates, unique nearest neighbour, single and (N,3) queries), snaptie (exact ties, `vertex` alias, '
+        'refused `to=`), hist (volume histories of 4-25 steps on 1-4 Volume objects: query / in-place mutator / copy-like '
+        'derivation / pickle; query points drawn from the cells of the current AND of every earlier geometry of the object so '
+        'that a stale structure answers differently), vox (VoxelNeuron), backend, pyocrays, boundary (recorded only). '
+        'non-trivial: ≥4 query points / ≥2 nodes or points / ≥4 vertices / ≥2 volumes / ≥2 candidate rows / a history with a '
+        'query after an in-place change of the same object; distinct = distinct JSON digest')
     ctx.extra['assumptions'] = [
         'query points, nodes, points and mesh-neuron vertices sit at half-integer coordinates (never on the surface); all '
         'coordinates are exactly representable doubles',
         'ncollpyde ray casting is external: its agreement with exact membership is tested on these cases, not proved',
-        'pyoctree is not installed: in_volume_pyoc is not exercised; the scipy convex-hull fallback is only compared on convex volumes',
+        'pyoctree is not installed: in_volume_pyoc runs on a brute-force stand-in for pyoctree.PyOctree (line/triangle '
+        'intersections, no acceleration) in the history, backend and pyocrays streams; its masks are NOT judged for geometric '
+        'exactness (the function rounds crossing points to integers), only its cache freshness, back-end selection and ray '
+        'consensus are; the scipy convex-hull fallback is only compared on convex volumes',
+        'volume histories use box complexes in integer poses only (every mutator is an integer signed scaled permutation + '
+        'translation or a replacement of the mesh), so the current solid is known exactly after every step',
+        'the recording ncollpyde proxy is installed as navis.intersection.ray.ncollpyde for the duration of one history; if '
+        'navis stops constructing its structure there the freshness flag is simply absent and only the masks are judged',
         'snap is only compared on inputs with a unique nearest neighbour (kd-tree tie order is not an observable)',
         'prevent_fragments=True (adds connecting nodes on purpose) is outside the partition statement and not generated',
         'MeshNeuron vertex / connector partition oracles are strict on meshes without straddling faces; with straddling faces the '
@@ -1275,13 +2175,34 @@ def run(ctx):
     ]
     ctx.extra['backends_available'] = {'ncollpyde': _isect.ncollpyde is not None, 'pyoctree': _isect.pyoctree is not None,
                                        'scipy': True}
+    driver_is_current(ctx)
     for kind, case in gen_cases(ctx):
         c = dict(case, kind=kind)
         ctx.case(c, nontrivial=nontrivial(kind, case))
         RUNNERS[kind](ctx, c)
 
 
+def driver_is_current(ctx):
+    """The driver evaluates the model on facts GENERATED from the navis source (cache spec, shape of in_volume).  A driver
+    binary left over from a different source tree (its rebuild failed for an unrelated reason) would mis-predict navis: that
+    is an infrastructure problem (exit 2), never a violation."""
+    from harness import common as _C
+    from translator import gen_volcache, gen_involume
+    meta = gen_volcache.generate(_C.REPO)[2]
+    want_spec = '|'.join([
+        ','.join(f"{b}={v['cache_attr'] or '-'}/{1 if v['rays_keyed'] else 0}" for b, v in meta['backends'].items()),
+        ','.join(f"{m}={'+'.join(c)}" for m, c in meta['mutators'].items()),
+        '+'.join(meta['pickle_drops'])])
+    sh = gen_involume.shape(_C.REPO)
+    want_shape = ','.join('-' if sh[f] is None else ('1' if sh[f] else '0') for f in gen_involume.FIELDS)
+    got_spec, got_shape = ctx.ask('c18.cachespec x'), ctx.ask('c18.shape x')
+    if got_spec != want_spec or got_shape != want_shape:
+        raise RuntimeError('the Lean driver was built from a different navis source tree than the one under test '
+                           f'(cache spec {got_spec!r} vs {want_spec!r}; shape {got_shape!r} vs {want_shape!r}): rebuild navisdrv')
+
+
 def replay(ctx, rp):
+    driver_is_current(ctx)
     case = rp['case']
     ctx.case(case)
     RUNNERS[case['kind']](ctx, case)
@@ -1318,10 +2239,63 @@ def _still_fails(ctx, case):
     return bool(p.fails)
 
 
+def _shrink_hist(ctx, failure, case):
+    """Drop query / mutator steps (derivations stay: later steps address objects by position), then query points."""
+    def fails_list(c):
+        p = _Probe(ctx)
+        try:
+            RUNNERS['hist'](p, c)
+        except Exception:
+            return []
+        return p.fails
+    need_mask = any('is not the inside/outside mask' in f for f in fails_list(case))
+
+    def _still_fails(_ctx, c):            # keep a *wrong answer* in the shrunk history when the original had one
+        fl = fails_list(c)
+        return bool(fl) and (not need_mask or any('is not the inside/outside mask' in f for f in fl))
+    changed, rounds = True, 0
+    while changed and rounds < 10:
+        changed, rounds = False, rounds + 1
+        i = len(case['steps']) - 1
+        while i >= 0:
+            if case['steps'][i][0] in ('q', 'm') and len(case['steps']) > 1:
+                cand = dict(case); cand['steps'] = case['steps'][:i] + case['steps'][i + 1:]
+                if _still_fails(ctx, cand):
+                    case, changed = cand, True
+            i -= 1
+        # unused trailing derivations
+        while len(case['steps']) > 1 and case['steps'][-1][0] == 'c':
+            cand = dict(case); cand['steps'] = case['steps'][:-1]
+            if _still_fails(ctx, cand):
+                case, changed = cand, True
+            else:
+                break
+    for k, st in enumerate(case['steps']):
+        if st[0] != 'q':
+            continue
+        j = 0
+        while j < len(case['steps'][k][5]) and len(case['steps'][k][5]) > 1:
+            st = case['steps'][k]
+            cand = dict(case)
+            cand['steps'] = case['steps'][:k] + [st[:5] + [st[5][:j] + st[5][j + 1:]]] + case['steps'][k + 1:]
+            if _still_fails(ctx, cand):
+                case = cand
+            else:
+                j += 1
+    fl = fails_list(case)
+    fl = [f for f in fl if 'is not the inside/outside mask' in f] + fl
+    out = dict(failure)
+    out['case'] = case
+    out['what'] = fl[0] if fl else failure['what']
+    return out
+
+
 def shrink(ctx, failure):
     case = json.loads(json.dumps(failure['case']))
     if case.get('kind') not in RUNNERS or not _still_fails(ctx, case):
         return None
+    if case['kind'] == 'hist':
+        return _shrink_hist(ctx, failure, case)
     fields = [f for f in ('pts', 'nodes', 'conns', 'queries', 'vols', 'trees', 'variants', 'calls') if isinstance(case.get(f), list)]
     changed, rounds = True, 0
     while changed and rounds < 30:
